@@ -1,1 +1,61 @@
-fn main() { println!("hi"); }
+//! sle_harness — runs the real crate in-process for the correspondence check.
+//!
+//!   sle_harness gen-tables <outdir>        regenerate lean/SLE/Gen/*.lean from the code
+//!   sle_harness gen <family> <seed> <n>    print `family\tpayload` request lines
+//!   sle_harness eval                       stdin `family\tpayload` -> `family\tpayload\tanswer`
+//!
+//! Every case runs under `catch_unwind`; a panic is reported as the answer `PANIC <msg>`.
+
+mod fam;
+mod rng;
+mod tables;
+mod util;
+
+use std::io::{BufRead, Write};
+
+fn main() {
+    // Silence the default panic printer; panics are turned into answers.
+    std::panic::set_hook(Box::new(|_| {}));
+    let args: Vec<String> = std::env::args().collect();
+    if args.len() < 2 {
+        eprintln!("usage: sle_harness gen-tables|gen|eval ...");
+        std::process::exit(2);
+    }
+    match args[1].as_str() {
+        "gen-tables" => {
+            let out = args.get(2).expect("outdir");
+            tables::generate(out);
+        }
+        "gen" => {
+            let family = args.get(2).expect("family");
+            let seed: u64 = args.get(3).expect("seed").parse().expect("seed int");
+            let n: usize = args.get(4).expect("n").parse().expect("n int");
+            let tier = args.get(5).map(|s| s.as_str()).unwrap_or("quick");
+            let stdout = std::io::stdout();
+            let mut w = std::io::BufWriter::new(stdout.lock());
+            fam::generate(family, seed, n, tier, &mut |payload: String| {
+                writeln!(w, "{family}\t{payload}").unwrap();
+            });
+        }
+        "eval" => {
+            let stdin = std::io::stdin();
+            let stdout = std::io::stdout();
+            let mut w = std::io::BufWriter::new(stdout.lock());
+            for line in stdin.lock().lines() {
+                let line = line.unwrap();
+                if line.is_empty() {
+                    continue;
+                }
+                let mut it = line.splitn(3, '\t');
+                let family = it.next().unwrap().to_string();
+                let payload = it.next().unwrap_or("").to_string();
+                let ans = util::guarded(|| fam::eval(&family, &payload));
+                writeln!(w, "{family}\t{payload}\t{ans}").unwrap();
+            }
+        }
+        other => {
+            eprintln!("unknown subcommand {other}");
+            std::process::exit(2);
+        }
+    }
+}
